@@ -258,8 +258,9 @@ def judge_step(proj, mat, edge_group, pre, post, verdict, detail=""):
     probs = []
     if verdict in ("panic", "hang"):
         return [("C18", f"{act} ended in {verdict}: {detail}")]
-    if verdict != o["verdict"]:
-        return [(own, f"verdict {verdict}, Fs.tla prescribes {o['verdict']} {detail[:200]}")]
+    verdict_wrong = verdict != o["verdict"]
+    if verdict_wrong:
+        probs.append((own, f"verdict {verdict}, Fs.tla prescribes {o['verdict']} {detail[:200]}"))
     gen_paths = {"p/" + proj.gen_path(g): g for g in proj.gens()}
     # non-generated files: sources, decoys - bytes, inode and mtime must be unchanged (C10)
     for p, v in pre.items():
@@ -273,6 +274,8 @@ def judge_step(proj, mat, edge_group, pre, post, verdict, detail=""):
     for p, w in post.items():
         if p not in pre and p not in gen_paths and "dir" not in w:
             probs.append(("C10", f"{act} created {p}, which is neither an output nor a temp target"))
+    if verdict_wrong:
+        return probs      # the prediction for the generated paths belongs to the other verdict
     # generated paths: some candidate post-state must explain the tree
     def touched(p):
         a, b = pre.get(p), post.get(p)
